@@ -20,6 +20,11 @@ VERIF = os.path.dirname(os.path.dirname(os.path.abspath(__file__)))
 REPO = os.environ.get("VERIF_REPO", "/repo")
 HARNESS_DIR = os.path.join(VERIF, "harness")
 HARNESS_BIN = os.path.join(HARNESS_DIR, "target", "debug", "mmverif")
+# development only (lib/coverage.sh): a coverage-instrumented build of the same harness, used to see which
+# parts of /repo the corpora never reach; the registered checks never set this variable
+_DEV_BIN = os.environ.get("VERIF_DEV_HARNESS_BIN")
+if _DEV_BIN:
+    HARNESS_BIN = _DEV_BIN
 TLA_DIR = os.path.join(VERIF, "tla")
 WORK = os.path.join(VERIF, ".work")
 EVID = os.path.join(VERIF, "evidence")
@@ -52,7 +57,7 @@ def build_harness():
     """Rebuild the harness (and with it /repo's crates, hooks on) from the
     current working tree. A no-op when nothing changed."""
     global _built
-    if _built:
+    if _built or _DEV_BIN:
         return
     lock = os.path.join(HARNESS_DIR, "Cargo.lock")
     if not os.path.exists(lock):
